@@ -86,6 +86,8 @@ struct State {
 
 static SEQ: AtomicU64 = AtomicU64::new(0);
 static INFLIGHT: AtomicI64 = AtomicI64::new(0);
+static MSGS_SENT: AtomicU64 = AtomicU64::new(0);
+static MSGS_DONE: AtomicU64 = AtomicU64::new(0);
 static STATE: Mutex<Option<State>> = Mutex::new(None);
 static GATE: Condvar = Condvar::new();
 
@@ -313,4 +315,28 @@ pub struct BlobState {
     pub file_size: u64,
     /// bytes not yet synced
     pub dirty: u64,
+}
+
+/// Messages handed to the background worker's channel so far (process-wide)
+pub fn msgs_sent() -> u64 {
+    MSGS_SENT.load(Ordering::SeqCst)
+}
+
+/// Messages the background worker has finished processing so far (process-wide)
+pub fn msgs_done() -> u64 {
+    MSGS_DONE.load(Ordering::SeqCst)
+}
+
+pub(crate) fn on_msg_sent() {
+    MSGS_SENT.fetch_add(1, Ordering::SeqCst);
+}
+
+/// Counts a worker message as processed when dropped (also on the error path)
+#[derive(Debug)]
+pub(crate) struct MsgGuard;
+
+impl Drop for MsgGuard {
+    fn drop(&mut self) {
+        MSGS_DONE.fetch_add(1, Ordering::SeqCst);
+    }
 }
